@@ -68,6 +68,12 @@ class C14(Prop):
                                              for _ in range(rng.randint(1, 3))]
                 b["events"].append([None, T0, FUTURE - T0 + 5_000_000, storegen.LABELS[1]])  # begins in the past, ends in 2149
             out.append(("legacy-db", case))
+        # a legacy bucket larger than any batch size the copy might use (100, 1000), not a multiple of either
+        for n in ((1234,) if ctx.quick else (101, 1001, 1234, 2500)):
+            evs = [[None, T0 + k * 1000, 1000, storegen.LABELS[k % 2]] for k in range(n)]
+            out.append(("legacy-db-large", {"testing": rng.random() < 0.5, "mode": "same", "other_first": False,
+                                            "buckets": [{"id": "big", "meta": storegen.mk_meta(rng, "big"), "events": evs},
+                                                        {"id": "small", "meta": storegen.mk_meta(rng, "small"), "events": evs[:3]}]}))
         return out
 
     def impl(self, case):
